@@ -25,11 +25,14 @@ def strip_ref(t):
 
 
 LAST_ROOT = [('', ())]
+LAST_LOCAL = [(None, None)]
 
 
 class Hasher:
     def __init__(self, ctor):
         self.ctor = ctor
+        self.pos = 0
+        self.inlined_from = None
         self.algo = ctor.full.split('::', 1)[1] if '::' in ctor.full else ctor.full
         self.events = []
         self.out_local = None
@@ -41,7 +44,7 @@ class Hasher:
 
 
 class Upd:
-    __slots__ = ('kind', 'dtype', 'proj', 'origin', 'call', 'body', 'rb', 'cond', 'via', 'root_ty', 'root_path')
+    __slots__ = ('kind', 'dtype', 'proj', 'origin', 'call', 'body', 'rb', 'cond', 'via', 'root_ty', 'root_path', 'root_local', 'inl')
 
     def sig(self):
         return (self.kind, self.dtype, self.proj, self.origin)
@@ -152,6 +155,7 @@ def hasher_id(F, body, op, depth=0):
 
 def origin_of(F, body, l, path, outs, depth=0):
     LAST_ROOT[0] = (body.local_ty(l) if l is not None else '', tuple(path))
+    LAST_LOCAL[0] = (body, l)
     """Human / comparable name of where a datum comes from."""
     if body.is_param(l) and not (body.kind == 'Closure' and l == 1):
         nm = body.var_name(l) or 'arg%d' % l
@@ -229,7 +233,81 @@ def _iter_source_old(F, pb, consumer):
     return (l, path), elem
 
 
-def transcripts(F, root):
+NAMED_DIGESTS = re.compile(r'primitives::(H_hash|J_hash|G_hash)$')
+
+
+def transcripts(F, root, depth=0):
+    """[Hasher] for function `root` (closures included), events in source order.  Hashers living in
+    crate-local helper functions called from `root` (other than the scheme's named digests) are inlined:
+    their inputs are re-expressed in terms of the caller's arguments, their output is the call's result."""
+    hl = _transcripts_local(F, root)
+    if depth >= 2:
+        return hl
+    from .props.c13 import rpo
+    order = {b: i for i, b in enumerate(rpo(root))}
+    outs = {}
+    extra = []
+    for c in root.calls():
+        cal = lib.local_callee(F, c)
+        if cal is None or cal.key == root.key or NAMED_DIGESTS.search(cal.key) or cal.kind == 'Closure':
+            continue
+        if not any(fb.calls(*CTOR) for fb in F.family(cal.key)):
+            continue
+        sub = transcripts(F, cal, depth + 1)
+        ret = backward_slice(cal, [0], follow_mutarg=True)
+        for h in sub:
+            nh = Hasher(h.ctor)
+            nh.finalize = h.finalize
+            nh.inlined_from = cal.key
+            nh.pos = order.get(c.b, 10 ** 6)
+            if h.out_local is not None and h.out_local in ret.locals:
+                nh.out_local = c.dest['l']
+                nh.out_name = root.var_name(c.dest['l']) or h.out_name
+            for u in h.events:
+                nu = Upd()
+                for s in Upd.__slots__:
+                    setattr(nu, s, getattr(u, s, None))
+                nu.rb = c.b
+                nu.inl = (cal, u)
+                nh.events.append(nu)
+            extra.append((c, cal, nh))
+    if not extra:
+        return hl
+    allh = []
+    for h in hl:
+        h.pos = order.get(h.ctor.b, 0)
+        allh.append(h)
+    for (_c, _cal, nh) in extra:
+        allh.append(nh)
+    allh.sort(key=lambda h: h.pos)
+    for i, h in enumerate(allh):
+        if h.out_local is not None:
+            outs[h.out_local] = i + 1
+    # re-express the inlined inputs in the caller's terms
+    for (c, cal, nh) in extra:
+        for nu in nh.events:
+            (cal_b, u) = nu.inl
+            rl, rp = getattr(u, 'root_local', None), tuple(getattr(u, 'root_path', ()) or ())
+            if rl is not None and cal_b.is_param(rl) and rl - 1 < len(c.args) and is_place(c.args[rl - 1]):
+                l2, p2, _s, _d = base_of(root, c.args[rl - 1])
+                if l2 is not None:
+                    org, rest = origin_of(F, root, l2, tuple(p2) + rp, outs)
+                    pre = ''
+                    m = re.match(r'^((?:elem\()*)', u.origin)
+                    nu.origin = org + (''.join('.' + x for x in rest) if rest else '')
+                    if u.origin.startswith('elem('):
+                        nu.origin = 'elem(%s)' % nu.origin
+                    nu.root_ty, nu.root_path = LAST_ROOT[0]
+    # local hashers may consume outputs of inlined ones: recompute their 'hash-output' origins
+    for h in hl:
+        for u in h.events:
+            rl = getattr(u, 'root_local', None)
+            if rl is not None and u.body is root and rl in outs:
+                u.origin = 'hash-output#%d' % outs[rl]
+    return allh
+
+
+def _transcripts_local(F, root):
     """[Hasher] for function `root` (closures included), events in source order."""
     from .props.c13 import rpo, loop_depths
     fam = F.family(root.key)
@@ -314,6 +392,8 @@ def transcripts(F, root):
                         u.origin = org
             u.cond = None
             u.root_ty, u.root_path = LAST_ROOT[0]
+            u.root_local = LAST_LOCAL[0][1] if LAST_LOCAL[0][0] is root else None
+            u.inl = None
             h.events.append(u)
     for h in hlist:
         h.events.sort(key=lambda u: (order.get(u.rb, 10 ** 6), u.call.ln))
